@@ -32,6 +32,7 @@ import Rsa.Core.Num
 import Rsa.Core.Tri
 import Rsa.Core.Compare
 import Rsa.Core.Folds
+import Rsa.Gen.C07
 
 namespace Rsa.Ceiling
 open Rsa.Compare
@@ -166,36 +167,35 @@ def vsumP (p : Nat) (rows : List (List α)) : List α := rows.foldr vadd (List.r
 def meanRows (rows : List (List α)) : List α :=
   (vsumP (rows.headD []).length rows).map (· / (rows.length : α))
 
-variable [LT α] [DecidableLT α] [HasSqrt α]
+variable [LT α] [DecidableLT α] [HasSqrt α] [Neg α] [LE α] [DecidableLE α] [Max α] [Min α]
 
 /-- root mean square, `np.sqrt(np.nanmean(x ** 2))` -/
 def rms (x : List α) : α := HasSqrt.sqrt (mean (x.map fun a => a * a))
 
-/-- cosine normaliser: `x / sqrt(nanmean(x**2))`.  An all-zero RDM (RMS 0) is left as the zero
-    vector: its similarity to every RDM is 0 by the guard of `_cosine`, so it must not contribute
-    to the pool (*repaired behaviour*: the pinned tree divides by 0, the pool becomes NaN and
-    `compare` raises `ValueError`). -/
-def cosF (x : List α) (a : α) : α := if 0 < rms x then a / rms x else 0
+/-- `_nonzero(norm)`: a zero norm (norms are never negative) is replaced by 1, so that an all-zero
+    or constant RDM stays the zero vector while pooling (its similarity to every RDM is 0 by the
+    guard of `_cosine`, it must not contribute to the pool).  Exact comparison: an RDM of tiny but
+    non-zero scale is normalised like any other. -/
+def nonzero (s : α) : α := if 0 < s then s else 1
 
-/-- correlation normaliser: `c = x - nanmean(x)`, then `c / nanstd(c)`; `nanstd` removes the
-    mean (again) before taking the root mean square.  A constant RDM (standard deviation 0)
-    becomes the zero vector (repaired behaviour, as for `cosF`). -/
+/-- cosine normaliser: `x / _nonzero(sqrt(nanmean(x**2)))`; the division is the generated leaf -/
+def cosF (x : List α) (a : α) : α := Rsa.Gen.C07.cosScale a (nonzero (rms x))
+
+/-- correlation normaliser: `c = x - nanmean(x)`, then `c / _nonzero(nanstd(c))`; `nanstd` removes
+    the mean (again) before taking the root mean square; both steps are generated leaves -/
 def corrF (x : List α) (a : α) : α :=
-  let s := rms (center (center x))
-  if 0 < s then (a - mean x) / s else 0
+  Rsa.Gen.C07.corrScale (Rsa.Gen.C07.corrCenter a (mean x)) (nonzero (rms (center (center x))))
 
 /-- rank normaliser (`_nan_rank_data`): the tie-averaged rank among the non-missing entries -/
 def rankF (x : List α) (a : α) : α := rankOf x a
-
-variable [Min α]
 
 /-- `np.nanmin` of the non-missing entries -/
 def minL : List α → α
   | [] => 0
   | a :: as => as.foldl min a
 
-/-- `x - np.nanmin(x)` -/
-def shiftF (x : List α) (a : α) : α := a - minL x
+/-- `x - np.nanmin(x)` (generated leaf) -/
+def shiftF (x : List α) (a : α) : α := Rsa.Gen.C07.corrShift a (minL x)
 
 /-- the per-RDM normaliser of `pool_rdm` -/
 def normF : Method → List α → α → α
@@ -229,6 +229,20 @@ def simV : Method → List (List α) → List α → List α → α
   | .spearman, _, x, y => spearman x y
   | .cosineCov, V, x, y => wsim V x y
   | .corrCov, V, x, y => wsim V (center x) (center y)
+
+/-- `util/pooling.pool_rdm` for the whitened measures (the pooling the fitters use): every RDM is
+    divided by its *whitened* norm `√(rᵀV⁻¹r)` (after mean removal for `corr_cov`), averaged, and
+    for `corr_cov` shifted by the minimum plus 0.01 (generated leaves) -/
+def poolW (m : Method) (V : List (List α)) (rows : List (List α)) : List α :=
+  match m with
+  | .corrCov =>
+    let avg := meanRows (rows.map fun r =>
+      let c := r.map (fun a => Rsa.Gen.C07.poolingCorrCenter a (mean r))
+      c.map (fun a => Rsa.Gen.C07.poolingCorrCovScale a (nonzero (HasSqrt.sqrt (dot c (solve V c))))))
+    avg.map (fun a => Rsa.Gen.C07.poolingCorrCovShift a (minL avg))
+  | _ =>
+    meanRows (rows.map fun r =>
+      r.map (fun a => Rsa.Gen.C07.poolingCosCovScale a (nonzero (HasSqrt.sqrt (dot r (solve V r))))))
 
 end dense
 
@@ -278,7 +292,7 @@ def osumP (p : Nat) (rows : List (List (Option α))) : List (Option α) :=
 def nanMeanRows (rows : List (List (Option α))) : List (Option α) :=
   (osumP (rows.headD []).length rows).map (Option.map (· / (rows.length : α)))
 
-variable [LT α] [DecidableLT α] [HasSqrt α] [Min α]
+variable [LT α] [DecidableLT α] [HasSqrt α] [Neg α] [LE α] [DecidableLE α] [Max α] [Min α]
 
 /-- `pool_rdm(rdms, method)` as coded -/
 def poolO (m : Method) (rows : List (List (Option α))) : List (Option α) :=
